@@ -178,6 +178,17 @@ def known_replays(ctx, findings):
     """Findings recorded with an argument vector that must be a usage error."""
     out = []
     for e in findings:
+        if e["id"] == "D64":
+            import random, tempfile, shutil
+            root = tempfile.mkdtemp(prefix="hera_cli_")
+            try:
+                bad = None
+                for fx in (("data", ["assemble", "P"]), ("good", ["assemble", "P"])):
+                    bad = bad or main_oracle(random.Random(0), root, fx)[0]
+            finally:
+                shutil.rmtree(root, ignore_errors=True)
+            out.append((e, bad is not None, bad))
+            continue
         if e["id"] == "D57":
             r = real_parse(e["argv"])
             bad = None if r.get("path") == e["path"] else "hera %s: the file argument is taken to be %r, it is written %r" % (
@@ -327,8 +338,10 @@ def main_oracle(rng, root, fixed=None):
                 lcode, ldata = open(p + ".lcode").read(), open(p + ".ldata").read()
             except OSError as e:
                 return "%s: output files missing (%s)" % (what, e), kind
-            if lcode.strip() != parts["--code"].strip() or ldata.strip() != parts["--data"].strip():
-                return "%s: the .lcode/.ldata files differ from the --stdout output" % what, kind
+            # the same content, to the byte (D64: the .ldata file lacked the final newline)
+            if lcode != parts["--code"] or ldata != parts["--data"]:
+                return "%s: the .lcode/.ldata files differ from the --stdout output (%r... vs %r... / %r... vs %r...)" % (
+                    what, lcode[-12:], parts["--code"][-12:], ldata[-12:], parts["--data"][-12:]), kind
     return None, kind
 
 
